@@ -21,7 +21,7 @@ from sim.world import Run
 
 ID = "C22"
 LEVEL = "fault_enumeration"
-RUNS = {"quick": 2000, "thorough": 150000}
+RUNS = {"quick": 2000, "thorough": 900000}
 BUDGET = {"quick": 100.0, "thorough": 3300.0}
 CHUNK = 50
 EXHAUSTIVE = ["all 2^(n-1) chunkings of every generated TCP stream of at most 12 (quick) / 16 (thorough) octets"]
